@@ -18,6 +18,8 @@ class complex:
 
     def __neg__(self) -> float: pass
 
+    def __pos__(self) -> complex: pass
+
     def __pow__(self, power: Union[int, float, complex], modulo=None) -> complex: pass
 
     def __str__(self) -> str: pass
